@@ -803,9 +803,19 @@ impl CodegenContext {
 
                                 let scope_nx = match &as_ {
                                     Some(as_) => {
-                                        // Want to import into a new named scope
-                                        self.symbols
-                                            .ensure_index(self.current_scope_nx, &as_.path.data)
+                                        // Want to import into a new named scope. The 'as' name is where that scope
+                                        // is defined, so it can be navigated to and renamed.
+                                        let scope_nx = self
+                                            .symbols
+                                            .ensure_index(self.current_scope_nx, &as_.path.data);
+                                        let parent_scope = self.current_scope_nx;
+                                        self.symbol_definition(scope_nx).set_location(
+                                            DefinitionLocation {
+                                                parent_scope,
+                                                span: as_.path.span,
+                                            },
+                                        );
+                                        scope_nx
                                     }
                                     None => self.current_scope_nx,
                                 };
